@@ -486,6 +486,10 @@ impl<F: Float, D: Data<Elem = F>> PredictInplace<ArrayBase<D, Ix2>, Array1<usize
     }
 }
 
+#[cfg(linfa_verif)]
+#[path = "../verif_hooks_c10.rs"]
+pub mod verif_hooks_c10;
+
 #[cfg(test)]
 mod tests {
     use super::*;
